@@ -124,6 +124,7 @@ func (n *ConstantDeclarationNode) String() string {
 	}
 
 	if n.Initialiser != nil {
+		buff.WriteString(" = ")
 		parens := ExpressionPrecedence(n) > ExpressionPrecedence(n.Initialiser)
 		initStr := n.Initialiser.String()
 		if strings.ContainsRune(initStr, '\n') {
